@@ -4,6 +4,7 @@ import (
 	"encoding/hex"
 	"errors"
 	"math"
+	"math/big"
 	"net/url"
 	"regexp"
 	"strconv"
@@ -108,16 +109,13 @@ func builtinGlobalParseInt(call FunctionCall) Value {
 	value, err := strconv.ParseInt(input, radix, 64)
 	if err != nil {
 		if errors.Is(err, strconv.ErrRange) {
-			base := float64(base)
-			// Could just be a very large number (e.g. 0x8000000000000000)
-			var value float64
-			for _, chr := range input {
-				digit := float64(digitValue(chr))
-				if digit >= base {
-					return NaNValue()
-				}
-				value = value*base + digit
+			// Could just be a very large number (e.g. 0x8000000000000000):
+			// convert it exactly and round once.
+			integer, ok := new(big.Int).SetString(input, radix)
+			if !ok {
+				return NaNValue()
 			}
+			value, _ := new(big.Float).SetInt(integer).Float64()
 			if negative {
 				value *= -1
 			}
